@@ -579,4 +579,85 @@ def r15_8(run):
     run.floor(2)
 
 
-RULES = [("R15.7", r15_7), ("R15.6", r15_6), ("R15.1", r15_1), ("R15.2", r15_2), ("R15.3", r15_3), ("R15.4", r15_4), ("R15.5", r15_5), ("R15.8", r15_8)]
+def _sat_with(conds, fixed):
+    """is the conjunction of the path conditions satisfiable when the atoms in `fixed` ({term key: bool}) have those values?
+    (propositional: and / or / not over opaque atoms; `x not in y` is not (x in y))"""
+    import itertools
+    from ..arrnf import key as tkey
+
+    def norm(t):
+        if t[0] == "cmp" and t[1] == "not in":
+            return ("u", "not", ("cmp", "in", t[2], t[3]))
+        if t[0] == "cmp" and t[1] == "is not":
+            return ("u", "not", ("cmp", "is", t[2], t[3]))
+        return t
+
+    def atoms(t, acc):
+        t = norm(t)
+        if t[0] == "bool":
+            for x in t[2]:
+                atoms(x, acc)
+        elif t[0] == "u" and t[1] == "not":
+            atoms(t[2], acc)
+        else:
+            acc.add(tkey(t))
+        return acc
+
+    def ev(t, env):
+        t = norm(t)
+        if t[0] == "bool":
+            vals = [ev(x, env) for x in t[2]]
+            return all(vals) if t[1] == "and" else any(vals)
+        if t[0] == "u" and t[1] == "not":
+            return not ev(t[2], env)
+        return env[tkey(t)]
+    names = set()
+    for c, _ in conds:
+        atoms(c, names)
+    free = sorted(names - set(fixed))
+    if len(free) > 10:
+        return True
+    for vals in itertools.product((False, True), repeat=len(free)):
+        env = dict(fixed)
+        env.update(zip(free, vals))
+        for k in names:
+            env.setdefault(k, False)
+        if all(ev(c, env) == pol for c, pol in conds):
+            return True
+    return False
+
+
+def r15_9(run):
+    """loading converts: convert_format -> add_default_components(net, overwrite=False) -> add_new_component for every default
+    component.  A table that is already in the net must survive that: add_new_component writes net[<table>] (item store or
+    net.update({<table>: ...})) only on paths where the table is absent or overwrite was asked for -- otherwise a loaded net comes back
+    with an emptied element table"""
+    from ..arrnf import ANF, key as tkey, roots, show as tshow
+    ix = run.index
+    f = ix.func("pandapipes.component_models.component_toolbox.add_new_component")
+    run.analysed(f)
+    ps = f.params()
+    _sh = lambda ok, what: None if ok else (_ for _ in ()).throw(AnalysisError("unrecognised shape: " + what))
+    _sh(len(ps) >= 3, "add_new_component(net, component, overwrite)")
+    r = ANF(ix, f, param_alias={ps[0]: "net", ps[1]: "component", ps[2]: "overwrite"}).run()
+    name = ("call", ("attr", ("n", "component"), "table_name"), (), ())
+    present = tkey(("cmp", "in", name, ("n", "net")))
+    fixed = {present: True, tkey(("n", "overwrite")): False}
+    writes = []
+    for e in r.stores():
+        if e.index == (name,) and tkey(("n", "net")) in roots(e.base):
+            writes.append(e)
+    for c in r.calls():
+        if c.fn[0] == "attr" and c.fn[2] == "update" and tkey(("n", "net")) in roots(c.fn[1]) and c.args and c.args[0][0] == "dict" \
+                and any(tkey(k_) == tkey(name) for k_, _ in c.args[0][1]):
+            writes.append(c)
+    _sh(len(writes) >= 1, "add_new_component writes net[component.table_name()]")
+    for i, e in enumerate(writes):
+        ok = not _sat_with(e.cond, fixed)
+        run.ob("add_new_component|existing-table-kept|%d" % i, ok,
+               "net[<table>] is written only if the table is absent or overwrite is set", run.where(f, e.node),
+               detail="path condition: %s" % [(tshow(c_)[:70], p_) for c_, p_ in e.cond])
+    run.floor(1)
+
+
+RULES = [("R15.7", r15_7), ("R15.6", r15_6), ("R15.1", r15_1), ("R15.2", r15_2), ("R15.3", r15_3), ("R15.4", r15_4), ("R15.5", r15_5), ("R15.8", r15_8), ("R15.9", r15_9)]
